@@ -556,7 +556,9 @@ func validateName(allowReserved bool, typeName, name string, line, col int) (err
 			ErrValidation, typeName, line, col))
 	} else {
 		for _, b := range name {
-			if charMap[b] != tokenChar {
+			// The map has an entry for every byte, a rune above that is
+			// not a name character either.
+			if 255 < b || charMap[b] != tokenChar {
 				errs = append(errs, fmt.Errorf("%w, %s is not a valid %s name at %d:%d",
 					ErrValidation, name, typeName, line, col))
 				break
